@@ -170,4 +170,18 @@ def gen_case(ch):
 
 
 def shard(ctx):
+    # degenerate bases (empty string, one symbol, one-symbol fragments) x every flag combination, enumerated
+    small = [[], ["[C]"], ["[C]", ".", "[N]"], ["[F]", "[C]"], ["[C]", "[Ring1]"], ["[Na+1]", ".", "[Cl-1]", ".", "[O]"]]
+    j = 0
+    for toks in small:
+        for positions in ([0], [0, 0], [len(toks)], list(range(len(toks) + 1)), [len(toks) // 2] * 3):
+            for compat in (False, True):
+                for attr in (False, True):
+                    if j % ctx.nshards == ctx.shard:
+                        ctx.check(dict(table="default", toks=list(toks), positions=sorted(positions), compat=compat, attr=attr))
+                    j += 1
+        for pad in (0, 1, 3):
+            if j % ctx.nshards == ctx.shard:
+                ctx.check(dict(table="default", toks=list(toks), mode="pad", pad=pad, enc="label", rot=0))
+            j += 1
     ctx.drive("main", gen_case, ctx.n(2500, 40000), max_bytes=1500)
